@@ -15,6 +15,14 @@ def parseEv (t : String) : Option Ev :=
   | ['x'] => some .abort
   | _ => none
 
+def parseName (t : String) : Option NameEv :=
+  match t.toList with
+  | 'l' :: r => (String.ofList r).toNat?.map .lookup
+  | 'i' :: r => (String.ofList r).toNat?.map .insert
+  | _ => none
+
+def isNameTok (t : String) : Bool := t.startsWith "l" || t.startsWith "i"
+
 /-- split the token list at "|" into transactions (each starts with "T") -/
 def splitTxns (ws : List String) : List (List String) :=
   let rec go : List String → List String → List (List String) → List (List String)
@@ -44,10 +52,16 @@ def step (_ : Unit) (line : String) : Unit × Option String :=
     let txns := (splitTxns rest).filter (· ≠ [])
     let bad := txns.filterMap fun t =>
       match t with
-      | "T" :: evs =>
-        match evs.mapM parseEv with
-        | some es => checkTxn op es
-        | none => some "unparsable event"
+      | "T" :: toks =>
+        let evs := toks.filter (!isNameTok ·)
+        match evs.mapM parseEv, (toks.filter isNameTok).mapM parseName with
+        | some es, some ns =>
+          match checkTxn op es with
+          | some m => some m
+          | none =>
+            if insertsChecked ns [] then none
+            else some "a name is inserted into a directory without having been looked up in the same transaction (check and insert are not atomic)"
+        | _, _ => some "unparsable event"
       | _ => some "transaction does not start with T"
     ((), bad.head?)
   | _ => ((), some "unknown line")
